@@ -48,7 +48,7 @@ def run_shard(shard, tier, seed):
                         for ms in itertools.combinations_with_replacement(range(len(opts)), k):
                             cases.append(dict(centre=el, charge=ch, radical=rad, bonds=[list(opts[i]) for i in ms]))
         return direct_run(ID, cases, check_case)
-    strat = st.fixed_dictionaries({'mol': molgen.mol_specs(max_atoms=16)})
+    strat = st.fixed_dictionaries({'mol': molgen.mol_specs(max_atoms=16), 'hseed': st.integers(0, 2 ** 20)})
     return hyp_run(ID, strat, check_case, max_examples=shard['n'], seed=seed * 1000 + shard['shard'])
 
 
@@ -190,3 +190,76 @@ def check_molecule(case, rec):
                                         f'RDKit H={ra.GetTotalNumHs()}', sig=a.atomic_symbol)
                     return
     rec.sample('molecule', str(m), cap=6)
+    hydrogen_bookkeeping(m, case.get('hseed', 0), rec)
+
+
+def rederive(m, rec, label, clause):
+    for n, a in m.atoms():
+        ref = valence_ref.implicit_h(a, valence_ref.atom_neighbours(m, n))
+        if a.implicit_hydrogens != ref:
+            nb = sorted(valence_ref.atom_neighbours(m, n))
+            rec.fail(clause, f'{label} atom {n} ({a.atomic_symbol} charge {a.charge} bonds {nb}): library H={a.implicit_hydrogens}, '
+                             f'tables H={ref}', sig=a.atomic_symbol)
+            return False
+    return True
+
+
+def hydrogen_bookkeeping(m0, hseed, rec):
+    """explicit hydrogens incl. isotopic ones attached through the API, then explicify / implicify: every count must stay the one
+    the element tables give for the current neighbours, totals must not move"""
+    import random as _random
+    from chython.periodictable import H as HCls
+    from chython.exceptions import ValenceError
+    if any(a.implicit_hydrogens is None for _, a in m0.atoms()):
+        return
+    rnd = _random.Random(hseed)
+    m = m0.copy()
+    if any(a.implicit_hydrogens != valence_ref.implicit_h(a, valence_ref.atom_neighbours(m, n)) for n, a in m.atoms()):
+        return  # text-selected alternative states: judged above, not a basis for this clause
+    label = repr(str(m0))
+    hosts = [n for n, a in m.atoms() if a.implicit_hydrogens and a.atomic_number != 1]
+    rnd.shuffle(hosts)
+    added = 0
+    for n in hosts[:rnd.randrange(3)]:
+        before = m.atom(n).implicit_hydrogens
+        h = m.add_atom(HCls(rnd.choice([2, 2, 3, None])))
+        m.add_bond(n, h, 1)
+        added += 1
+        if m.atom(n).implicit_hydrogens != before - 1:
+            rec.fail('explicit-h', f'{label}: attaching a hydrogen atom to atom {n} changed its implicit count {before} -> '
+                                   f'{m.atom(n).implicit_hydrogens}')
+            return
+    total = sum(a.implicit_hydrogens + (a.atomic_number == 1) for _, a in m.atoms())
+    brutto = dict(m.brutto)
+    if added:
+        rec.count('hydrogens:isotopic-or-explicit-attached')
+    label = repr(str(m))
+    try:
+        k = m.explicify_hydrogens()
+    except ValenceError:
+        rec.count('hydrogens:explicify-ValenceError')
+        return
+    if any(a.implicit_hydrogens for _, a in m.atoms()) or sum(a.atomic_number == 1 for _, a in m.atoms()) != total or \
+            k != total - added - sum(a.atomic_number == 1 for _, a in m0.atoms()):
+        rec.fail('explicify', f'{label}: {k} hydrogens added, {total} expected in total')
+        return
+    if dict(m.brutto) != brutto:
+        rec.fail('explicify', f'{label}: formula changed {brutto} -> {dict(m.brutto)}')
+        return
+    if not rederive(m, rec, label + ' after explicify_hydrogens()', 'explicify'):
+        return
+    try:
+        m.implicify_hydrogens()
+    except ValenceError:
+        rec.count('hydrogens:implicify-ValenceError (documented for hydrogens with coordinate bonds / invalid valence)')
+        return
+    if dict(m.brutto) != brutto:
+        rec.fail('implicify', f'{label}: formula changed by explicify/implicify {brutto} -> {dict(m.brutto)} ({str(m)!r})')
+        return
+    if not rederive(m, rec, label + ' after implicify_hydrogens()', 'implicify'):
+        return
+    if m.check_valence():
+        rec.fail('implicify', f'{label}: valence errors {m.check_valence()} after implicify_hydrogens()')
+        return
+    totals(m, rec, label + ' after implicify_hydrogens()')
+    rec.count('hydrogens:round-trips')
